@@ -6,6 +6,7 @@ PROPS="$@"
 for D in /verif/seeded/*/; do
   S=$(basename $D); P=${S%%-*}
   if [ -n "$PROPS" ] && ! echo " $PROPS " | grep -q " $P "; then continue; fi
+  if grep -q '"retired"' $D/meta.json 2>/dev/null; then continue; fi
   git -C /repo apply $D/patch.diff || { echo "$S patch-does-not-apply"; continue; }
   R=$(cd /verif && ./check $P 2>&1 | grep -E "VIOLATION|OK property" | head -1)
   git -C /repo checkout -- .
